@@ -101,9 +101,10 @@ class C10(InterpProp):
     technique = "deterministic simulation with fault injection: (1) step budget per event via a counting internal-event queue (bounded liveness), (2) an erroneous statement planted at every statement position of victim flows, differential against the fault-free twin run with identical decisions"
     rule = ("two batches. termination: random programs (40% with activated flows that end instantly by finishing, aborting or failing) - every processed external event must stay within the budget; an exceedance "
             "is confirmed with 4x the budget. faulty-flow: a random victim program plus fixed witness flows in other interaction loops (one of them waiting for the same event E5 as the planted match) and an error watcher; "
-            "one execution per (statement position, bad statement kind) - all positions, kinds cycled/sampled in quick, all kinds in thorough. evaluations = executions; "
+            "one execution per (statement position, bad statement kind) - all positions, kinds cycled/sampled in quick, all kinds in thorough; every 5th (quick) / 2nd (thorough) faulted program is also driven through the real "
+            "RuntimeV2_x.process_events on the virtual-time loop: nothing may escape it and it must emit what the direct driver emits. evaluations = executions; "
             "non-trivial = faulted executions in which the planted statement was reached (run diverged from the twin or a ColangError was seen); distinct = distinct (statement kind at the position, bad kind, reached?)")
-    expected_probes = ["batch_termination", "batch_faulty_flow", "instant_end_shape", "colang_error_seen", "match_error_contained", "witness_shared_event_delivered"]
+    expected_probes = ["real_api_executions", "batch_termination", "batch_faulty_flow", "instant_end_shape", "colang_error_seen", "match_error_contained", "witness_shared_event_delivered"]
     exhaustive_parts = ["every statement position of every sampled victim program", "all 10 erroneous-statement kinds per position in the thorough tier"]
     quick_runs = 400
     thorough_runs = 20000
@@ -144,6 +145,7 @@ class C10(InterpProp):
         sc["kinds_per_position"] = 2 if tier == "quick" else len(BAD_STATEMENTS)
         sc["kind_seed"] = d.randint(0, 1 << 30, "kseed")
         sc["gaps"] = False
+        sc["real_api_every"] = 5 if tier == "quick" else 2
         return sc
 
     # --- termination -----------------------------------------------------------------------
@@ -247,8 +249,88 @@ class C10(InterpProp):
         finally:
             I.uninstall_interp_seams()
 
+    def _run_real_api(self, sc, prog):
+        """The same driving protocol through the real event-processing API: RuntimeV2_x.process_events on the virtual-time
+        loop (state object handed back call by call).  Returns (steps, error) like _run_api; `raised` holds what escaped."""
+        import asyncio
+
+        from ..kernel import seams
+        from ..kernel.draws import Draws
+        from ..kernel.loop import run_sim
+
+        td = Draws(sc.get("tie_seed", 0))
+        tie_no = {"n": 0}
+
+        def chooser(site, k):
+            tie_no["n"] += 1
+            return td.index(k, "tie", tie_no["n"])
+
+        holder = {}
+
+        def clock():
+            lp = holder.get("loop")
+            return lp.time() if lp is not None else 0.0
+
+        ctx = seams.SimContext(chooser=chooser, clock=clock)
+        I.install_interp_seams(ctx)
+        seams.reset_run_state(ctx)
+        try:
+            from nemoguardrails import RailsConfig
+            from nemoguardrails.colang.v2_x.runtime.runtime import RuntimeV2_x
+
+            try:
+                cfg = RailsConfig.from_content(colang_content=G.render(prog), yaml_content="colang_version: 2.x\nmodels: []\n")
+                rt = RuntimeV2_x(config=cfg)
+            except control.SimControl:
+                raise
+            except Exception as e:
+                return None, ("load", e)
+            I.COUNTER.budget = 6000  # per process_events call; the direct driver's per-program budget decides non-termination
+            steps = []
+
+            async def call(state, events):
+                I.COUNTER.steps = 0
+                try:
+                    out_events, state2 = await rt.process_events(events, state=state, blocking=True)
+                    return out_events, state2, None
+                except control.SimControl:
+                    raise
+                except Exception as e:
+                    return [], state, e
+
+            async def main(loop):
+                holder["loop"] = loop
+                state = None
+                for i, ev in enumerate(["START"] + [dict(e) for e in sc["deliveries"]]):
+                    out_events, state, exc = await call(state, [] if ev == "START" else [ev])
+                    rec = {"event": ev if isinstance(ev, str) else ev.get("type"), "all": [o["type"] for o in out_events], "raised": [type(exc).__name__] if exc else []}
+                    fins = []
+                    for o in out_events:
+                        m = IR.START_RE.match(o.get("type", ""))
+                        if m and o.get("action_uid"):
+                            fins.append({"type": m.group(1) + "Finished", "action_uid": o["action_uid"], "is_success": True, "final_script": o.get("script")})
+                    for f in fins:
+                        o2, state, exc2 = await call(state, [f])
+                        rec["all"] += [o["type"] for o in o2]
+                        if exc2:
+                            rec["raised"].append(type(exc2).__name__)
+                    rec["wit"] = [t for t in rec["all"] if t in ("W1", "W2", "W3")]
+                    rec["err"] = sum(1 for t in rec["all"] if t == "ErrSeen")
+                    steps.append(rec)
+                return steps
+
+            try:
+                res, _loop = run_sim(main, start_time=1000.0, max_iterations=400000)
+            except control.StepBudgetExceeded as e:
+                return steps, ("budget", e)
+            return steps, None
+        finally:
+            I.COUNTER.budget = None
+            I.uninstall_interp_seams()
+
     def _faulty(self, sc, out, tr):
         out.probe("batch_faulty_flow")
+        self._n_inj = 0
         prog = sc["program"]
         twin, err = self._run_api(sc, prog, tr)
         out.evaluations = 1
@@ -295,6 +377,24 @@ class C10(InterpProp):
                 out.violate("nonterminating-with-fault", "%s:%s:%s" % (classify_ring(list(I.COUNTER.ring)), _position_class(prog, pos), name),
                             "bad statement %s planted in %s: step budget exceeded; last internal events: %s" % (name, where, _ring_brief(list(I.COUNTER.ring))), pin=pin)
                 continue
+            # the same faulted program through the real event-processing API (RuntimeV2_x.process_events on the virtual-time
+            # loop) for a share of the injections: nothing may escape it, and it must behave like the mirror used above
+            n_inj = getattr(self, "_n_inj", 0)
+            self._n_inj = n_inj + 1
+            if n_inj % sc.get("real_api_every", 4) == 0:
+                rsteps, rerr = self._run_real_api(sc, fprog)
+                out.evaluations += 1
+                out.probe("real_api_executions")
+                if rerr is None:
+                    for i, r in enumerate(rsteps):
+                        if r["raised"]:
+                            out.violate("exception-escaped-api", "%s:%s" % (name, r["raised"][0]), "bad statement %s planted in %s: RuntimeV2_x.process_events raised %s while processing event %d (%s)" % (name, where, r["raised"], i, r["event"]), pin=pin)
+                            break
+                    else:
+                        if [r["all"] for r in rsteps] != [x["all"] for x in steps]:
+                            k = next((i for i, (r, x) in enumerate(zip(rsteps, steps)) if r["all"] != x["all"]), None)
+                            out.violate("api-differs-from-direct-driver", name, "bad statement %s planted in %s: RuntimeV2_x.process_events emitted %r at step %s, the direct driver (run_to_completion + the documented error conversion) %r"
+                                        % (name, where, rsteps[k]["all"] if k is not None else None, k, steps[k]["all"] if k is not None else None), pin=pin)
             # the failure may legitimately propagate to an ancestor/awaiter of the faulty flow; if it reaches
             # main (ancestor of everything) the witnesses are no longer 'unrelated' - no verdict then
             if any(a.get("main") != b.get("main") for a, b in zip(twin, steps)):
